@@ -1,6 +1,8 @@
 #!/venv/bin/python
 """C10 in-process twin: `pytask.build(dry_run=True, …)` and then `pytask.build(…)` IN ONE INTERPRETER on the real code.
-argv: root, json list of build kwargs (one per build), result file. The body log (.verif_log) is read and removed after every build."""
+argv: root, json list of build kwargs (one per build), result file [, "objects"]. The body log (.verif_log) is read and removed after
+every build. With "objects" the project is not collected from task modules: the PTask OBJECTS created once by `verif_objs.make()` (a
+plain module in the project directory) are handed to every build of this interpreter via `pytask.build(tasks=[...])`."""
 import json
 import os
 import sys
@@ -14,6 +16,10 @@ def main():
     os.chdir(root)
     sys.path.insert(0, root)
     import pytask
+    tasks = None
+    if len(sys.argv) > 4 and sys.argv[4] == "objects":
+        import verif_objs
+        tasks = verif_objs.make()          # created ONCE, reused by every build below
     out = []
     log = os.path.join(root, ".verif_log")
     for kw in kws:
@@ -22,7 +28,7 @@ def main():
             kw["max_failures"] = float("inf")
         res = {"raised": None}
         try:
-            session = pytask.build(paths=[root], **kw)
+            session = pytask.build(paths=[root], **kw) if tasks is None else pytask.build(tasks=tasks, paths=[], **kw)
             res["exit"] = int(session.exit_code)
             res["reports"] = [[getattr(r.task, "base_name", None) or r.task.name, r.outcome.name,
                                type(r.exc_info[1]).__name__ if r.exc_info else None] for r in getattr(session, "execution_reports", [])]
